@@ -458,7 +458,8 @@ func (idx *indexer) Pause() {
 
 func (idx *indexer) doIndexing() {
 	if simhook.Enabled {
-		simhook.GoStart("indexer")
+		// named by index, not by arrival: the goroutines of several indexes start concurrently
+		simhook.GoStart("indexer:" + filepath.Base(filepath.Dir(idx.path)) + "/" + filepath.Base(idx.path))
 		defer simhook.GoEnd()
 	}
 	committedTxID := idx.store.LastCommittedTxID()
